@@ -184,11 +184,29 @@ def mc_seqc_part(chk, w, tier):
     chk.add_mc("MC_SeqC.cfg", r, constants=f"Widths = {{1,2}} Cuts = {{lel, fc}}; {len(insts)} re-convergent instances (2 base states per layer x 3 decisions, knapsacks with 2 distinct weights; n <= 6): {4 * len(insts)} complete caching searches, every tie-break")
 
 
+def mc_parc_part(chk, w, tier):
+    """C09 / C03 / C04 on the specification: the composed PARALLEL caching search (critical sections of ParBnB.tla x DD.tla reading the shared,
+    concurrently written threshold table layer by layer)"""
+    thorough = tier == "thorough"
+    tr = os.path.join(w, "parc_insts.ndjson")
+    run_bin("dd", ["--seed", SEED * 1000 + 78, "--instances", 120 if not thorough else 400, "--per-instance", 1, "--family", "reconv", "--dd", "lel", "--out", tr])
+    insts = [e["inst"] for e in read_ndjson(tr) if e["ev"] == "reset" and e["inst"]["family"] in ("lifted", "knapsack") and e["inst"]["n"] <= 6]
+    plans = [("MC_ParC_w2.cfg", 20)] if not thorough else [("MC_ParC_w2.cfg", 120), ("MC_ParC_w2_nodup.cfg", 60), ("MC_ParC_w3.cfg", 40)]
+    for cfg, k in plans:
+        f = os.path.join(w, f"parc_insts_{k}.json")
+        json.dump(insts[:k], open(f, "w"))
+        r = mc("MC_ParC", cfg, workers=8, env={"INSTS": f}, timeout=5400, require_actions=False)
+        chk.add_mc(cfg, r, constants=f"Widths = {{1,2}} Cuts = {{lel, fc}}; {min(k, len(insts))} re-convergent instances (n <= 6): {4 * min(k, len(insts))} complete parallel caching searches, "
+                                     "every interleaving of critical sections, diagram layers and cache publications, every tie-break")
+
+
 def extra_parts(chk, w, tier):
     """parts of a property decided by another engine"""
     mc_parts(chk, tier)
     if chk.pid == "C09":
         mc_seqc_part(chk, w, tier)
+    if chk.pid == "C09" or (tier == "thorough" and chk.pid in ("C03", "C04")):
+        mc_parc_part(chk, w, tier)
     if chk.pid == "C10":
         import components
         components.c10_component(chk, w, tier)
